@@ -282,7 +282,7 @@ def dedupe(strings):
     return out
 
 
-def check_dex(ck, dex, strings, seed, leb_pad, drv, reqs, real):
+def _check_dex(ck, dex, strings, seed, leb_pad, drv, reqs, real):
     """one generated DEX file: correspondence requests (appended) + oracle checks. returns #checks"""
     import random
     from harness import dexasm as A
@@ -388,6 +388,21 @@ def check_dex(ck, dex, strings, seed, leb_pad, drv, reqs, real):
             parts.append(f"{it.get_utf16_size()}:{cps_line(it.get())}")
         real.append("|".join(parts))
     return n
+
+
+def check_dex(ck, dex, strings, seed, leb_pad, drv, reqs, real):
+    """_check_dex, with any exception of the real accessors on a valid generated file reported as a failing input"""
+    n0, r0 = len(reqs), len(real)
+    try:
+        return _check_dex(ck, dex, strings, seed, leb_pad, drv, reqs, real)
+    except Exception as e:  # noqa
+        del reqs[n0:], real[r0:]
+        import traceback
+        where = traceback.extract_tb(e.__traceback__)[-1]
+        ck.fail({"op": "dex", "seed": seed, "leb_pad": leb_pad, "strings": dedupe(strings)},
+                "a string accessor raises on a valid generated DEX file", None, "the strings of the file",
+                f"{type(e).__name__}: {str(e)[:100]} at {os.path.basename(where.filename)}:{where.lineno} {where.name}")
+        return 0
 
 
 # ------------------------------------------------------------------ run
